@@ -269,7 +269,10 @@ def _seq_build_inv(L):
     out = [('state-after-k-members-is-the-specification-fold', t.and_(bs('bs_ok', F), t.eq(o.buf, bs('bs_buf', F)), t.eq(o.len, bs('bs_len', F)), t.eq(o.pos, bs('bs_pos', F)),
                                                                     t.eq(L.st.ghost['H'], bs('bs_H', F)), t.eq(L.st.ghost['D'], bs('bs_D', F))), None, hints),
            ('scope-keeps-its-identity', t.eq(_addr(L.st, 'context'), _addr(L.entry, 'context')))]
-    it = L.obj('objiter')
+    try:
+        it = L.obj_of_kind('objiter', OIter)
+    except Exception:
+        it = None
     if hasattr(it, 'idx'):
         out.append(('the-iterator-over-the-supplied-values-stands-at-element-k', t.eq(it.idx, L.k)))
     rl = L.obj('retlist')
